@@ -446,10 +446,14 @@ func rlaneMain(argv []string) int {
 		default:
 			nb = 4 + g.R.Intn(5)
 		}
+		chain := g.R.Chance(1, 3)
 		rng := simrt.NewRand(simrt.Mix(*seed, uint64(idx), 1902))
 		ev := evalR(tasks, func(solo []*rRun) *simrt.RSched {
 			rs := simrt.NewRSched(rng)
 			planR(rs, rng, solo, len(tasks), nb)
+			if nb > 0 && chain {
+				rs.Chain = 2 + rng.Intn(5)
+			}
 			return rs
 		})
 		if ev.unowned {
